@@ -110,8 +110,8 @@ def gen_compound(rnd, thorough):
             out.append(wrap_fn("t.f %s %s" % (op, v)))
     # sequences: the numbering of temporaries across statements, nested blocks and scopes
     n = 600 if thorough else 150
-    atoms = ["%s[%s] %s %s" % (rnd.choice(PREFIXES), rnd.choice(KEYS), rnd.choice(OPS), rnd.choice(VALUES))
-             for _ in range(60)] + ["%s.x %s 1" % (p, rnd.choice(OPS)) for p in PREFIXES]
+    atoms = ["%s[%s] %s %s;" % (rnd.choice(PREFIXES), rnd.choice(KEYS), rnd.choice(OPS), rnd.choice(VALUES))
+             for _ in range(60)] + ["%s.x %s 1;" % (p, rnd.choice(OPS)) for p in PREFIXES]
     shapes = ["%s %s", "%s do %s end %s", "do %s end %s", "%s if c then %s else %s end %s",
               "%s while c do %s end %s", "%s repeat %s until (function() %s end)()", "%s local g = function() %s end %s",
               "%s for i = 1, 2 do %s %s end", "%s for k, v in pairs(t) do %s end %s", "%s function o:m() %s end %s",
@@ -144,7 +144,7 @@ def gen_floor(rnd, thorough):
 def gen_interp(rnd, thorough):
     out = []
     strs = ["", "a", "%", "100%d", "%%", "\\n", "\\{", "x y"]
-    vals = ["x", "1", "nil", "f()", "'s'", "`in{y}`", "a + b", "...", "{}", "true"]
+    vals = ["x", "1", "nil", "f()", "'s'", "`in{y}`", "a + b", "...", "({})", "true"]
     segs = [("s", s) for s in strs if s] + [("v", v) for v in vals]
     for n in range(0, 4):
         pool = list(itertools.product(segs, repeat=n))
@@ -157,7 +157,7 @@ def gen_interp(rnd, thorough):
 
 
 NUMBERS = ["0b101", "0B11", "0b1_0", "0b0", "0b11111111111111111111111111111111", "0xFF", "0XfF", "0x_ff", "1_000", "1e3",
-           "1E3", "0x10p2", "12.5", ".5", "5.", "1e-3", "1_0.5", "0b1111_0000", "0xA", "3"]
+           "1E3", "12.5", ".5", "5.", "1e-3", "1_0.5", "0b1111_0000", "0xA", "3"]
 
 
 def gen_number(rnd, thorough):
@@ -195,7 +195,8 @@ def gen_types(rnd, thorough):
             "local function g() %s end", "local q = function() %s end", "function M.f() %s end", "type function tf() %s end"]
     for b in base:
         out.append(rnd.choice(nest) % b)
-        out.append("%s type X = number %s" % (b, rnd.choice(base)))
+        if not b.startswith("return"):
+            out.append("%s type X = number %s" % (b, rnd.choice(base)))
     return out
 
 
